@@ -1875,17 +1875,63 @@ fn tape_chunk_case(boundary: usize) {
     kani::cover!(t.asset.pos == 7, "whole image consumed");
 }
 
-// ---- lead: C15 - an error while stepping to the next block must leave a tape that can still be used ----
+// ---- lead: long blocks through a synthetic asset ----------------------------------------------------
+// A tape image computed from its position instead of stored in an array: bytes read out of an array of
+// more than 64 elements are not constants for CBMC, so a length field parsed from such an array turns
+// every later copy into a symbolic-size memcpy (> 10 GB).  Here header bytes are literals, data bytes
+// are `seed ^ position`, and the byte(s) of the second block are symbolic fields.
 
-/// 140-byte image holder for blocks longer than the 128-byte read buffer
-pub(crate) struct BigBuf {
-    pub data: [u8; 140],
-    pub len: usize,
+pub(crate) struct SynthTape {
+    pub pos: usize,
+    pub len: usize,      // bytes present in the image
+    pub len1: u8,        // length of block 1 (its header is at 0..2, data at 2..2+len1)
+    pub len2: u8,        // claimed length of block 2 (header right behind block 1)
+    pub seed: u8,
+    pub x: u8,           // first data byte of block 2
 }
 
-impl AsRef<[u8]> for BigBuf {
-    fn as_ref(&self) -> &[u8] {
-        &self.data[..self.len]
+impl SynthTape {
+    fn byte_at(&self, p: usize) -> u8 {
+        let h2 = 2 + self.len1 as usize;
+        if p == 0 {
+            self.len1
+        } else if p == 1 || p == h2 + 1 {
+            0
+        } else if p < h2 {
+            self.seed ^ (p as u8)
+        } else if p == h2 {
+            self.len2
+        } else {
+            self.x
+        }
+    }
+}
+
+impl LoadableAsset for SynthTape {
+    fn read(&mut self, buf: &mut [u8]) -> core::result::Result<usize, crate::error::IoError> {
+        if self.pos >= self.len {
+            return Err(crate::error::IoError::UnexpectedEof);
+        }
+        let avail = self.len - self.pos;
+        let n = if buf.len() < avail { buf.len() } else { avail };
+        let mut i = 0;
+        while i < n {
+            buf[i] = self.byte_at(self.pos + i);
+            i += 1;
+        }
+        self.pos += n;
+        Ok(n)
+    }
+}
+
+impl SeekableAsset for SynthTape {
+    fn seek(&mut self, pos: SeekFrom) -> core::result::Result<usize, crate::error::IoError> {
+        match pos {
+            SeekFrom::Start(p) => self.pos = p,
+            SeekFrom::End(d) => self.pos = (self.len as isize + d) as usize,
+            SeekFrom::Current(d) => self.pos = (self.pos as isize + d) as usize,
+        }
+        Ok(self.pos)
     }
 }
 
@@ -1893,48 +1939,24 @@ impl AsRef<[u8]> for BigBuf {
 // @prop C15 C10
 // @tier quick
 // @timeout 900
-// @fn Tap::next_block; Tap::next_block_byte; Tap::process_clocks; Tap::play; BufferCursor::read; LoadableAsset::read_exact
-// @sym first, 128th and last byte of a 129-byte block (longer than the 128-byte read buffer, so the buffer has been refilled once), length field and the single data byte of a following block that is TRUNCATED (claims 2..=255 bytes, 1 present)
-// @assert consuming the long block delivers its bytes; stepping to the truncated block returns Err (not a panic); after that error every further use of the tape - asking for a byte, stepping again, pressing play and letting time pass - returns Ok or Err without panic, arithmetic overflow or out-of-bounds access
+// @fn Tap::next_block; Tap::next_block_byte; Tap::process_clocks; Tap::play; LoadableAsset::read_exact
+// @sym contents of a 129-byte block (longer than the 128-byte read buffer, so the buffer has been refilled once) and the data byte of a following block that is TRUNCATED (claims 2 bytes, 1 present)
+// @assert consuming the long block delivers its bytes in order; stepping to the truncated block returns Err (not a panic); after that error every further use of the tape - asking for a byte, stepping again, pressing play and letting time pass - returns Ok or Err without panic, arithmetic overflow or out-of-bounds access
 // @bound one 129-byte block + one truncated block (unwind 135)
 #[kani::proof]
 #[kani::unwind(135)]
 fn c15_tape_usable_after_error_behind_a_long_block() {
-    let mut data = [0u8; 140];
-    data[0] = 129;
-    data[1] = 0;
-    let (first, mid, last): (u8, u8, u8) = (kani::any(), kani::any(), kani::any());
-    data[2] = first;
-    data[2 + 127] = mid;
-    data[2 + 128] = last;
-    // second block: length 2..=255, only one byte present
-    let claimed: u8 = kani::any();
-    kani::assume(claimed >= 2);
-    data[131] = claimed;
-    data[132] = 0;
-    data[133] = kani::any();
-    let mut t = match Tap::from_asset(crate::host::BufferCursor::new(BigBuf { data, len: 134 })) {
+    let seed: u8 = kani::any();
+    let asset = SynthTape { pos: 0, len: 2 + 129 + 2 + 1, len1: 129, len2: 2, seed, x: kani::any() };
+    let mut t = match Tap::from_asset(asset) {
         Ok(t) => t,
         Err(_) => unreachable!(),
     };
     kani::assert(matches!(t.next_block(), Ok(true)), "c15.tape_err.long_block_found");
-    let mut i = 0;
+    let mut i = 0usize;
     let mut ok = true;
     while i < 129 {
-        match t.next_block_byte() {
-            Ok(Some(b)) => {
-                if i == 0 {
-                    ok &= b == first;
-                }
-                if i == 127 {
-                    ok &= b == mid;
-                }
-                if i == 128 {
-                    ok &= b == last;
-                }
-            }
-            _ => ok = false,
-        }
+        ok &= matches!(t.next_block_byte(), Ok(Some(b)) if b == seed ^ ((2 + i) as u8));
         i += 1;
     }
     kani::assert(ok, "c15.tape_err.long_block_bytes");
@@ -1955,8 +1977,8 @@ fn c15_tape_usable_after_error_behind_a_long_block() {
 // @prop C10
 // @tier quick
 // @timeout 900
-// @fn Tap::next_block (skipping the unread rest of the previous block); Tap::next_block_byte; BufferCursor::read; BufferCursor::seek
-// @sym marker bytes of a 130-byte block (longer than the 128-byte read buffer) and the byte of the block that follows it; how many bytes of the first block a request consumed before the next request arrives: 0, 1, 127, 128, 129 or all 130 (literal cases, incl. exactly one buffer)
+// @fn Tap::next_block (skipping the unread rest of the previous block); Tap::next_block_byte; LoadableAsset::read_exact
+// @sym contents of a 130-byte block (longer than the 128-byte read buffer) and the byte of the block that follows it; how many bytes of the first block a request consumed before the next request arrives: 0, 1, 127, 128, 129 or all 130 (literal cases, incl. exactly one buffer)
 // @assert every request consumes exactly the next block: after a request that stopped anywhere inside the long block (also exactly at the 128-byte buffer boundary), the next request finds the FOLLOWING block - its byte, then its end, then the end of the tape
 // @bound 130-byte block + 1-byte block (unwind 135)
 #[kani::proof]
@@ -1975,28 +1997,17 @@ fn c10_partial_request_is_followed_by_the_next_block() {
 }
 
 fn partial_then_next(consumed: usize) {
-    let mut data = [0u8; 140];
-    data[0] = 130;
-    data[1] = 0;
-    let (first, x): (u8, u8) = (kani::any(), kani::any());
-    data[2] = first;
-    data[132] = 1;
-    data[133] = 0;
-    data[134] = x;
-    let mut t = match Tap::from_asset(crate::host::BufferCursor::new(BigBuf { data, len: 135 })) {
+    let (seed, x): (u8, u8) = (kani::any(), kani::any());
+    let asset = SynthTape { pos: 0, len: 2 + 130 + 2 + 1, len1: 130, len2: 1, seed, x };
+    let mut t = match Tap::from_asset(asset) {
         Ok(t) => t,
         Err(_) => unreachable!(),
     };
     kani::assert(matches!(t.next_block(), Ok(true)), "c10.partial.first_block_found");
-    let mut i = 0;
+    let mut i = 0usize;
     while i < 130 {
         if i < consumed {
-            let r = t.next_block_byte();
-            if i == 0 {
-                kani::assert(matches!(r, Ok(Some(b)) if b == first), "c10.partial.first_byte");
-            } else {
-                kani::assert(matches!(r, Ok(Some(_))), "c10.partial.byte_available");
-            }
+            kani::assert(matches!(t.next_block_byte(), Ok(Some(b)) if b == seed ^ ((2 + i) as u8)), "c10.partial.bytes_in_order");
         }
         i += 1;
     }
